@@ -524,6 +524,12 @@ func (cr *cliRunner) checkRecs(name string, res cmdResult, want *recsOut, e *cli
 		return
 	}
 	if cr.prop == "C16" {
+		// no silent success: where the specification requires an error (unreadable / missing input, layouts that do
+		// not match, archive id out of range) the command must not report success
+		if (res.Class == "ok" || res.Class == "diff") && !classOK(want.K, "ok") && !classOK(want.K, "diff") {
+			cr.viol(name+" reports success where an error is required", fmt.Sprintf("%s, specification says %s", res.Class, want.K), tl, row, e.mp, "")
+			return
+		}
 		// success must come with the effect: the output the specification describes
 		if res.Class == "ok" && classOK(want.K, "ok") {
 			got, _, err := parsePointLines(res.Text, e.mp)
@@ -572,6 +578,10 @@ func (cr *cliRunner) checkCopy(name string, res cmdResult, want *copyOut, e *cli
 	}
 	ring, h, err := e.readRing("d")
 	if cr.prop == "C16" {
+		if res.Class == "ok" && want.K != "ok" {
+			cr.viol(name+" reports success where an error is required", fmt.Sprintf("ok, specification says %s", want.K), tl, row, e.mp, "")
+			return
+		}
 		if res.Class == "ok" && want.K == "ok" {
 			if err != nil {
 				cr.viol(name+" reports success but the destination does not exist", err.Error(), tl, row, e.mp, "")
